@@ -25,6 +25,9 @@ import (
 var c11EpVals = []string{"", "custom", "custom-noslash", "custom-trailing-slash", "custom-deep", "external"}
 
 var c11Space = mkSpace("config", []fieldDim{
+	{"Dirty", []string{"", "failed-writes"}},
+	{"Sibling", []string{"", "custom-endpoints-after", "custom-endpoints-before", "insecure-host-path-after", "shared-config-objects-after"}},
+	{"HTTP", []string{"", "context-with-issuer", "proxy-headers"}},
 	{"Issuer", []string{"", "static-path", "static-trailing-slash", "host", "host-path", "host-path-noslash", "forwarded"}},
 	{"Metadata", c11EpVals},
 	{"SSO", c11EpVals},
@@ -117,12 +120,16 @@ func c11Judge(p c11P) c11Verdict {
 		}
 	}
 	cfg, host := c11Config(p)
-	w, err := stdWorld(cfg)
+	w, err := world.WithSibling(p["Sibling"], func() (*world.World, error) { return stdWorld(cfg) })
 	if err != nil {
 		v.Classes = []string{"provider-not-constructed"}
 		return v
 	}
+	if p["Dirty"] != "" {
+		dirtyWrites(w)
+	}
 	hdr := func(r *http.Request) *http.Request {
+		r = world.Shape(r, p["HTTP"])
 		if p["Issuer"] == "forwarded" {
 			r.Header.Set("Forwarded", "for=192.0.2.1;host=fwd.example;proto=http")
 		}
